@@ -530,13 +530,30 @@ def sym_method(it: Any, recv: Any, name: str, args: list, kwargs: dict, f: Any) 
         if name == "from_bytes":
             return _int_from_bytes(it, args, kwargs, f)
         if name == "bit_length":
-            raise Unsupported("bit_length of a symbolic int")
+            # exact when the path condition pins the value between two consecutive powers of two
+            r, v = p._check(want=int_term(recv))
+            if r == z3.sat and v is not None:
+                b = abs(v).bit_length()
+                t = int_term(recv)
+                cond = z3.And(t >= (1 << (b - 1)), t < (1 << b)) if b > 0 else t == 0
+                if p.entails(cond):
+                    return b
+            raise Unsupported("bit_length of a symbolic int whose magnitude class is not fixed by the path condition")
         raise Unsupported(f"int method {name}")
     if isinstance(recv, (SBytes, SByteArray)):
         b = as_sbytes(recv)
         mutable = isinstance(recv, SByteArray)
         if name == "hex":
             return OpaqueStr()
+        if name == "join":
+            parts = list(it.iterate(args[0], f))
+            out: Any = None
+            for i, part in enumerate(parts):
+                if i and ops.conc_len(p, b) != 0:
+                    out = ops.bytes_concat(out, b)
+                out = as_sbytes(part) if out is None else ops.bytes_concat(out, part)
+            r = as_sbytes(b"") if out is None else out
+            return SByteArray(r) if mutable else r
         if name in ("extend", "append", "reverse", "clear") and not mutable:
             raise PyRaise(SExc(AttributeError, (name,)))
         if name == "extend":
